@@ -162,3 +162,14 @@ Definition do_sex_row gstat hap build t : string * option (Q * option Q) :=
   | Some (is_xy, st) => (if is_xy then sex_label_male else sex_label_female, Some (s_x_ratio st, s_y_ratio st))
   | None => (sex_label_female, None)
   end.
+
+(* ---- commands.do_sex, the whole table: one row per input table in the order given; the `sample` column is the
+        name the caller's table carries (meta["filename"] or the sample id); columns as named in the source ---- *)
+Definition do_sex_table gstat hap build (inputs : list (string * list bin))
+  : list (string * (string * option (Q * option Q))) :=
+  map (fun nt => (fst nt, do_sex_row gstat hap build (snd nt))) inputs.
+
+Definition do_sex_header : list string := do_sex_columns.
+
+(* strsign: "+%.3g" for a positive number, "%.3g" otherwise *)
+Definition strsign_plus (q : Q) : bool := qlt_b 0 q.
